@@ -261,7 +261,10 @@ fn check_orders(cx: &mut Ctx, model: &AstModel, oref: &crate::rules::grammar_rul
             // read symbolically (result term + ordered trace of calls), so locals may be named and placed freely
             let shape_ok = match crate::eval::symbolic(block, &[("SourceRange::new", &["start", "end"])]) {
                 Ok((term, trace)) => {
-                    let re = regex::Regex::new(r"^(\w+)\(self,node,\{end:self\.locate_only\(node\.range\.end\(\)\),start:self\.locate\(node\.range\.start\(\)\)\}\)$").unwrap();
+                    // the private helper receives the locator, the node and the shared location, in whatever order
+                    // its parameters are declared
+                    let loc_t = r"\{end:self\.locate_only\(node\.range\.end\(\)\),start:self\.locate\(node\.range\.start\(\)\)\}";
+                    let re = regex::Regex::new(&format!(r"^(\w+)\((?:self,node,{l}|self,{l},node|node,self,{l}|node,{l},self|{l},self,node|{l},node,self)\)$", l = loc_t)).unwrap();
                     let helper_ok = re.captures(&term).map_or(false, |c| loc.free_fns(&c[1]).len() == 1);
                     helper_ok && trace.len() == 3 && trace[0] == "self.locate(node.range.start())" && trace[1] == "self.locate_only(node.range.end())" && trace[2] == term
                 }
